@@ -215,3 +215,14 @@ def run(ctx):
                           {"what": "flagged-segments", "history": "refit-after-reconfigure", "inner": kind})
         if getattr(inner, "_is_fitted", False):
             ctx.violation("the wrapped detector passed by the user was fitted", inp, {"what": "user-detector-touched", "inner": kind})
+
+    from harness.variants import variants_stream
+    from skchange.anomaly_detectors import StatThresholdAnomaliser as _STA
+    from skchange.change_detectors import PELT as _PELT, MovingWindow as _MW, SeededBinarySegmentation as _SBS
+    from skchange.costs import GaussianVarCost as _GV
+    variants_stream(ctx, "StatThresholdAnomaliser(PELT(GaussianVarCost))", lambda: _STA(_PELT(cost=_GV(), min_segment_length=3), stat_lower=-1.0, stat_upper=1.0),
+                    ctx.n(3, 16), p_choices=(1,), flat_make=lambda: _STA(_PELT(cost=_GV(), min_segment_length=3), stat_lower=-1e9, stat_upper=1e9))
+    variants_stream(ctx, "StatThresholdAnomaliser(MovingWindow(GaussianVarCost), np.median)", lambda: _STA(_MW(change_score=_GV(), bandwidth=5, threshold_scale=1.0), stat=np.median, stat_lower=-1.0, stat_upper=1.0),
+                    ctx.n(2, 10), p_choices=(1,))
+    variants_stream(ctx, "StatThresholdAnomaliser(SeededBinarySegmentation(CUSUM))", lambda: _STA(_SBS(min_segment_length=2), stat_lower=-1.0, stat_upper=1.0),
+                    ctx.n(2, 10), p_choices=(1,))
